@@ -31,7 +31,7 @@ RULE = ("bids: every presence/absence combination of ses, task, run, space, desc
         "scipy.io.savemat / json in the three name shapes (1 participant 1 task .mat, 1 "
         "participant n tasks .json with interleaved non-arrangement tasks, n participants .mat "
         "with generated variable order), 3-7 stimuli in generated order with extensions of "
-        "different length, random dissimilarity vectors, sort True/False. mne: EpochsArray "
+        "different length, random dissimilarity vectors, sort True/False. mne: Epochs cut lazily (preload=False) from a 40-80 sample RawArray with 2-6 events, optional peak-to-peak rejection and events running off the recording; EpochsArray "
         "1-6 epochs x 1-5 channels x 1-8 samples, event table with distinct columns, optional "
         "FIF round trip under a BIDS-style name. design: 1-4 conditions x 1-4 onsets inside the "
         "run, 7 TRs, 30-120 volumes, 0-3 confound columns + optional NaN column, generated row "
@@ -576,6 +576,98 @@ def classify_mne(case):
     return labels, n_ep >= 2 and n_ch >= 2
 
 
+# 3b. MNE epochs cut lazily from a continuous recording (preload=False, the MNE default): the first
+# get_data() applies the rejection criterion and drops epochs that run off the recording
+
+
+@st.composite
+def mne_lazy_case(draw):
+    n_ch = draw(st.integers(1, 4))
+    n_s = draw(st.integers(40, 80))
+    raw = draw(gen.matrix(n_ch, n_s, kind='grid'))
+    n_ev = draw(st.integers(2, 6))
+    steps = draw(st.lists(st.integers(1, 20), min_size=n_ev, max_size=n_ev))
+    samples = [int(x) for x in np.cumsum(steps)]
+    if draw(st.booleans()):     # last event next to the end of the recording
+        samples[-1] = max(samples[-2] + 1, n_s - draw(st.integers(1, 3))) if n_ev >= 2 else n_s - 2
+    samples = [min(x, n_s - 1) for x in samples]
+    samples = sorted(set(samples))
+    events = [[x, 0, draw(st.sampled_from([3, 12, 1, 255, 7, 40]))] for x in samples]
+    spikes = draw(st.lists(st.tuples(st.integers(0, n_ch - 1), st.integers(0, n_s - 1)), max_size=2))
+    names = [CH_POOL[i] for i in draw(st.lists(st.integers(0, len(CH_POOL) - 1), min_size=n_ch,
+                                               max_size=n_ch, unique=True))]
+    return dict(raw=raw, events=events, spikes=[list(x) for x in spikes], names=names,
+                sfreq=draw(st.sampled_from([250.0, 100.0, 1000.0, 128.0])),
+                tmin_samples=draw(st.integers(-4, 0)), tmax_samples=draw(st.integers(1, 6)),
+                reject=draw(st.booleans()))
+
+
+def check_mne_lazy(case):
+    import mne
+    mne.set_log_level('error')
+    sfreq = case['sfreq']
+    raw_data = np.array(case['raw'], dtype=float)
+    for ch, smp in case['spikes']:
+        raw_data[ch, smp] += 1000.0
+    events = np.array(case['events'], dtype=int)
+    info = mne.create_info(list(case['names']), sfreq, ch_types='eeg', verbose='error')
+    lo, hi = case['tmin_samples'], case['tmax_samples']
+    kw = dict(tmin=lo / sfreq, tmax=hi / sfreq, baseline=None,
+              reject=dict(eeg=500.0) if case['reject'] else None, verbose='error')
+    try:
+        raw = mne.io.RawArray(raw_data.copy(), info, verbose='error')
+        lazy = mne.Epochs(raw, events.copy(), preload=False, **kw)
+    except Exception as e:  # noqa: BLE001
+        raise Reject('mne refused the epochs: %s' % e, 'harness:mne-constructor')
+    # own cut of the recording: complete epochs only, peak-to-peak below the criterion
+    want, codes = [], []
+    for smp, _, code in events:
+        a, b = smp + lo, smp + hi + 1
+        if a < 0 or b > raw_data.shape[1]:
+            continue
+        seg = raw_data[:, a:b]
+        if case['reject'] and np.any(seg.max(axis=1) - seg.min(axis=1) > 500.0):
+            continue
+        want.append(seg)
+        codes.append(int(code))
+    if not want:
+        raise Reject('no epoch survives', 'degenerate:no-epochs')
+    want = np.array(want)
+    what = 'dataset_from_epochs(Epochs(raw, %d events, preload=False%s))' % (
+        len(events), ', reject' if case['reject'] else '')
+    ds = lib(MN.dataset_from_epochs, lazy, on_error='violation', sig='mne:lazy:raises')
+    # cross-check of the oracle with MNE's own preloaded epochs (MNE trusted)
+    try:
+        ref_ep = mne.Epochs(raw, events.copy(), preload=True, **kw)
+        ok = np.array_equal(ref_ep.get_data(), want) and [int(c) for c in ref_ep.events[:, 2]] == codes
+    except Exception as e:  # noqa: BLE001
+        raise Reject('mne refused the preloaded epochs: %s' % e, 'harness:mne-constructor')
+    if not ok:
+        raise Reject('own cut of the recording differs from preloaded MNE epochs', 'harness:mne-cut')
+    require(ds.measurements.shape == want.shape, '%s: measurements shape %s, %d epochs survive: %s' % (
+        what, ds.measurements.shape, len(want), want.shape), 'mne:lazy:shape')
+    require(np.array_equal(ds.measurements, want), '%s: measurements differ from the recording (max '
+            'diff %.3g)' % (what, core.maxdiff(ds.measurements, want)), 'mne:lazy:measurements')
+    ev = [int(v) for v in ds.obs_descriptors['event']]
+    require(ev == codes, '%s: event descriptor %s, codes of the returned epochs %s' % (what, ev, codes),
+            'mne:lazy:events')
+    require(list(ds.channel_descriptors['name']) == list(case['names']), '%s: channel names %s' % (
+        what, list(ds.channel_descriptors['name'])), 'mne:lazy:channels')
+    t = np.asarray(ds.time_descriptors['time'], dtype=float)
+    want_t = np.arange(lo, hi + 1) / sfreq
+    require(t.shape == want_t.shape and core.close(t, want_t, rtol=1e-12, atol=1e-12),
+            '%s: times %s, expected %s' % (what, t, want_t), 'mne:lazy:times')
+
+
+def classify_mne_lazy(case):
+    n_s = len(case['raw'][0])
+    lo, hi = case['tmin_samples'], case['tmax_samples']
+    off = sum(1 for e in case['events'] if e[0] + lo < 0 or e[0] + hi + 1 > n_s)
+    labels = ['reject' if case['reject'] else 'no-reject', 'spikes=%d' % len(case['spikes']),
+              'off-recording=%d' % min(off, 2), 'events=%d' % len(case['events'])]
+    return labels, off > 0 or (case['reject'] and len(case['spikes']) > 0)
+
+
 # ===========================================================================
 # 4. HRF design matrix
 
@@ -930,6 +1022,9 @@ SUBCHECKS = [
     SubCheck('mne', mne_case(), check_mne, classify_mne, quick=300, thorough=3000,
              doc='EpochsArray -> TemporalDataset: data, event codes, channel names, times; '
                  'BIDS file-name descriptors; FIF round trip'),
+    SubCheck('mne_lazy', mne_lazy_case(), check_mne_lazy, classify_mne_lazy, quick=150, thorough=2000,
+             doc='Epochs cut lazily from a RawArray (preload=False) with a rejection criterion and '
+                 'events running off the recording: data and event codes of exactly the kept epochs'),
     SubCheck('design', design_case(), check_design, classify_design, quick=300, thorough=3000,
              doc='shape, flags, centred, range 1, dof, confound columns, column<->condition, '
                  'row-order and other-condition independence'),
